@@ -6,7 +6,7 @@ from .. import consts, bls
 
 NS = 'embedded_pairing::bls12_381::'
 
-EXPL = ('Round-trip equality of values is NOT decided. Decided (R-MUSTPASS): for each of the four instantiations of '
+EXPL = ('(R-PAIR/sign) the compressed encoder decides the sign flag by the same predicate - resolved comparison callee, operand roles (y, -y), operator and constant - that get_point_from_x uses to select the root; (R-LANES) coordinate byte I/O reverses bytes exactly. Round-trip equality of values is NOT decided. Decided (R-MUSTPASS): for each of the four instantiations of '
         'Encoding<Affine,compressed>::decode, every control-flow path with checked == true that ends in an accepting '
         'return passes, with the rejecting edge leading to `return false`: the compression-form test; on the identity '
         'branch the flag-residue test and the all-zero padding loop over the whole buffer; on the finite branch a '
